@@ -263,6 +263,7 @@ LINE_FAMILIES = [
     ['mov eax, [ebx+ecx]', 'mov eax, [ecx+ebx]', 'lea edx, [ebx+ecx]', 'lea edx, [ecx+ebx]', 'add [esi+ebp+1000], eax', 'add [ebp+esi+1000], eax',
      'mov eax, [esi+ebp+1000]', 'mov eax, [ebp+esi+1000]'],
     ['push 1 2 ecx', 'mov , eax', 'push ) ecx', 'mov eax, ebx', 'push ecx', 'lea , [eax]', 'mov eax ] ebx', 'inc , ', 'push 1', 'mov ecx, eax'],
+    ['mov eax, [ebx#4]', 'push 12$', 'mov eax, `x`', 'mov eax, [ebx', 'mov eax, "ebx"', 'push ~1', 'mov eax, ebx', 'push 12', 'mov eax, [ebx+4]', 'lea eax, [ebx!]'],
     ['mov al, 1', 'mov ax, 1', 'mov eax, 1', 'mov BYTE PTR [eax], 1', 'mov WORD PTR [eax], 1', 'mov DWORD PTR [eax], 1', 'push 1', 'push WORD PTR 1', 'pushw 1'],
     ['jmp 2', 'jg 2', 'call 2', 'jmp eax', 'call eax', 'jmp [eax]', 'call [eax]', 'jmp DWORD PTR [eax]', 'loop 2', 'jecxz 2'],
     ['fadd st, st(1)', 'fadd st(1), st', 'fsub st, st(2)', 'fsubr st, st(2)', 'fsub st(2), st', 'fdiv st, st(2)', 'fdivr st(2), st', 'faddp st(1), st', 'fadd DWORD PTR [eax]', 'fadd QWORD PTR [eax]'],
@@ -270,6 +271,7 @@ LINE_FAMILIES = [
 ATT_LINE_FAMILIES = [
     ['pxor %mm1, %mm0', 'pxor %xmm1, %xmm0', 'paddw %mm3, %mm2', 'paddw %xmm3, %xmm2', 'movd %mm1, %eax', 'movd %xmm1, %eax', 'movq %mm1, %mm0', 'movq %xmm1, %xmm0'],
     ['pushl ) %ecx', 'pushl 1 2 %ecx', 'pushl %ecx', 'movl , %eax', 'movl %ebx, %eax', 'incl', 'rep', 'lock', 'ret', 'nop'],
+    ['movl %eax, #5', 'movl 4[%ebx], %eax', 'pushl $12`', 'movl (%ebx, %eax', 'movl %ebx, %eax', 'pushl $12', 'movl 4(%ebx), %eax', 'movl ~(%ebx), %eax'],
     ['movl (%ebx,%ecx), %eax', 'movl (%ecx,%ebx), %eax', 'leal (%ebx,%ecx), %edx', 'leal (%ecx,%ebx), %edx', 'movl 1000(%esi,%ebp), %eax', 'movl 1000(%ebp,%esi), %eax'],
     ['fsub %st, %st(2)', 'fsubr %st, %st(2)', 'fsub %st(2), %st', 'fdiv %st, %st(2)', 'fdivr %st, %st(2)', 'fadds (%eax)', 'faddl (%eax)'],
 ]
